@@ -156,6 +156,10 @@ func c17Name(dim int, label string) types.String {
 		return "n1"
 	}
 	r := vrt.Rune(label)
+	if k := vrt.Choice(label+".rune-class", 5); k != 0 {
+		// sampled code points beyond the symbolic range
+		return types.String("n" + string([]rune{0xE9, 0x2028, 0xFFFD, 0x1F600}[k-1]))
+	}
 	if !vrt.Thorough() {
 		vrt.Assume(r < 0x80)
 	} else {
